@@ -10,6 +10,26 @@ when it is bound in S, and what it holds in M unfolds (`Rep`) to the tree it has
 import SteelVerif.C03.LemmasRun
 namespace SteelVerif.C03
 
+/-! ### programs used by the non-vacuity examples -/
+
+/-- a list `[1]` (kind 7) held by holders 0 and 1; holder 0 is updated to `[1, 2]` -/
+def witnessOps : List Op :=
+  [.new 0 7 [.lit 1], .alias 1 0, .update 0 7 [.old 0, .lit 2] true]
+
+/-- the first two operations of `witnessOps`: the list exists and is shared by holders 0 and 1 -/
+def sharedOps : List Op := [.new 0 7 [.lit 1], .alias 1 0]
+
+/-- non-vacuity of the in-place path: when the alias has been dropped (or moved: last use) the update of
+the code that exists DOES run in place (no new object is allocated: the store keeps its length), and the
+view is still the one of S -/
+def inplaceOps : List Op :=
+  [.new 0 7 [.lit 1], .alias 1 0, .drop 1, .update 0 7 [.old 0, .lit 2] true]
+
+/-- nested values: a container (kind 9) holding the list; the list is then updated through a holder
+obtained by `get` (a derived value: `car`, `hash-ref`, `vector-ref`): the container is unaffected -/
+def nestedOps : List Op :=
+  [.new 0 7 [.lit 1], .new 1 9 [.hold 0, .lit 5], .drop 0, .get 2 1 0, .update 2 7 [.old 0, .lit 2] true]
+
 /-! ### `inplace_refines_persistent` -/
 
 /-- For every operation list, from the empty state: after every step (the statement is for every list,
@@ -21,6 +41,15 @@ theorem inplace_refines_persistent {U : Obj → Bool} (hU : SoundTest U) (ops : 
   let ⟨a, b, _⟩ := run_refines hU ops {} [] inv_init agree_init rfl
   ⟨a, b⟩
 
+/-- non-vacuity (applied): the test of the code that exists is sound; a shared list updated through one of its
+holders, a nested container updated through a derived value, an update that does run in place -/
+example : Inv (run {} witnessOps) ∧ Agree (run {} witnessOps) (runS [] witnessOps) :=
+  inplace_refines_persistent rcIsOne_sound witnessOps
+example : Inv (run {} nestedOps) ∧ Agree (run {} nestedOps) (runS [] nestedOps) :=
+  inplace_refines_persistent rcIsOne_sound nestedOps
+example : Inv (run {} inplaceOps) ∧ Agree (run {} inplaceOps) (runS [] inplaceOps) :=
+  inplace_refines_persistent rcIsOne_sound inplaceOps
+
 /-- ... and no release is ever left pending: when the next operation performs its uniqueness test, every
 count is exactly the number of holders and slots that refer to the object -/
 theorem counts_exact {U : Obj → Bool} (hU : SoundTest U) (ops : List Op) (o : Nat) :
@@ -30,12 +59,26 @@ theorem counts_exact {U : Obj → Bool} (hU : SoundTest U) (ops : List Op) (o : 
   rw [hp] at this
   simpa [cntPend] using this
 
+/-- non-vacuity (applied): while the alias is alive the count of the list is 2 = two holders, no slot -/
+example : rcOf (run {} sharedOps).store 0 = cntHold 0 (run {} sharedOps).hold + cntStore 0 (run {} sharedOps).store :=
+  counts_exact rcIsOne_sound sharedOps 0
+example : rcOf (run {} sharedOps).store 0 = 2 ∧ cntHold 0 (run {} sharedOps).hold = 2 := by decide
+/-- … and inside a container it is 1 = one slot, no holder (`nestedOps` before the `get`) -/
+example : rcOf (run {} (nestedOps.take 3)).store 0 = 1 ∧ cntStore 0 (run {} (nestedOps.take 3)).store = 1 := by decide
+
 /-- the same for the test the code uses (`rc = 1`), from any consistent state -/
 theorem inplace_refines_persistent_from {s : State} {hs : SHolders} (hI : Inv s) (hA : Agree s hs)
     (hp : s.pend = []) (ops : List Op) :
     Inv (run s ops) ∧ Agree (run s ops) (runS hs ops) :=
   let ⟨a, b, _⟩ := run_refines rcIsOne_sound ops s hs hI hA hp
   ⟨a, b⟩
+
+/-- non-vacuity (applied): started from the reachable state in which the list is shared (all three hypotheses
+instantiated by the theorems above), the update refines S -/
+example : Agree (run (run {} sharedOps) [.update 0 7 [.old 0, .lit 2] true])
+    (runS (runS [] sharedOps) [.update 0 7 [.old 0, .lit 2] true]) :=
+  (inplace_refines_persistent_from (inplace_refines_persistent rcIsOne_sound sharedOps).1
+    (inplace_refines_persistent rcIsOne_sound sharedOps).2 (by decide) _).2
 
 mutual
 theorem unfold_of_Rep {st : Store} : ∀ (v : Val) (t : Tree), Rep st v t → ∀ m, t.depth ≤ m → unfold st m v = some t
@@ -78,10 +121,21 @@ theorem view_eq {U : Obj → Bool} (hU : SoundTest U) (ops : List Op) (h : Nat) 
     have := (hA h).2 v t hv ht
     simp [viewM, viewS, hv, ht, unfold_of_Rep v t this m hm]
 
+/-- non-vacuity (applied): the alias (holder 1) of `witnessOps` still sees `[1]`, the container of `nestedOps`
+still sees `((1) 5)`, with a depth bound above the depth of the tree -/
+example : viewM (run {} witnessOps) 5 1 = viewS (runS [] witnessOps) 1 :=
+  view_eq rcIsOne_sound witnessOps 1 (.node 7 [.atom 1]) rfl 5 (by decide)
+example : viewM (run {} nestedOps) 2 1 = viewS (runS [] nestedOps) 1 :=
+  view_eq rcIsOne_sound nestedOps 1 (.node 9 [.node 7 [.atom 1], .atom 5]) rfl 2 (by decide)
+
 /-- the same holders are bound in M and in S -/
 theorem bound_eq {U : Obj → Bool} (hU : SoundTest U) (ops : List Op) (h : Nat) :
     get (runWith U {} ops).hold h = none ↔ get (runS [] ops) h = none :=
   ((inplace_refines_persistent hU ops).2 h).1
+
+/-- non-vacuity (applied): holder 0 of `nestedOps` was dropped, holder 7 never existed -/
+example : get (run {} nestedOps).hold 0 = none ∧ get (run {} nestedOps).hold 7 = none :=
+  ⟨(bound_eq rcIsOne_sound nestedOps 0).2 rfl, (bound_eq rcIsOne_sound nestedOps 7).2 rfl⟩
 
 /-! ### `update_is_fresh_copy` -/
 
@@ -112,12 +166,36 @@ theorem update_is_fresh_copy {U : Obj → Bool} (hU : SoundTest U) {s : State} {
     | none => have := this.1.mp hv; rw [this] at htj; cases htj
     | some v => exact ⟨v, rfl, this.2 v t hv htj⟩
 
+/-- non-vacuity (applied, every hypothesis instantiated on the reachable state in which the list `[1]` is shared by
+holders 0 and 1): after `update 0` the updating holder unfolds to `[1, 2]` and the alias still to `[1]` -/
+example : ∃ v, get (step (run {} sharedOps) (.update 0 7 [.old 0, .lit 2] true)).hold 0 = some v ∧
+    Rep (step (run {} sharedOps) (.update 0 7 [.old 0, .lit 2] true)).store v (.node 7 [.atom 1, .atom 2]) :=
+  (update_is_fresh_copy rcIsOne_sound (inplace_refines_persistent rcIsOne_sound sharedOps).1
+    (inplace_refines_persistent rcIsOne_sound sharedOps).2 0 7 [.old 0, .lit 2] true
+    (k0 := 7) (cs := [.atom 1]) rfl).1
+example : ∃ v, get (step (run {} sharedOps) (.update 0 7 [.old 0, .lit 2] true)).hold 1 = some v ∧
+    Rep (step (run {} sharedOps) (.update 0 7 [.old 0, .lit 2] true)).store v (.node 7 [.atom 1]) :=
+  (update_is_fresh_copy rcIsOne_sound (inplace_refines_persistent rcIsOne_sound sharedOps).1
+    (inplace_refines_persistent rcIsOne_sound sharedOps).2 0 7 [.old 0, .lit 2] true
+    (k0 := 7) (cs := [.atom 1]) rfl).2 1 _ (by decide) rfl
+
 /-- in particular the two paths are indistinguishable: same pure value for every holder -/
 theorem inplace_and_copy_agree {U : Obj → Bool} (hU : SoundTest U) {s : State} {hs : SHolders}
     (hI : Inv s) (hA : Agree s hs) (h k : Nat) (srcs : List Src) :
     Agree (stepWith U s (.update h k srcs true)) (stepS hs (.update h k srcs false)) ∧
     Agree (stepWith U s (.update h k srcs false)) (stepS hs (.update h k srcs false)) :=
   ⟨(step_refines hU hI hA (.update h k srcs true)).2.1, (step_refines hU hI hA (.update h k srcs false)).2.1⟩
+
+/-- non-vacuity (applied): from the state in which the alias was dropped, where the `fast` update DOES run in
+place and the other one copies -/
+example : Agree (step (run {} (inplaceOps.take 3)) (.update 0 7 [.old 0, .lit 2] true))
+      (stepS (runS [] (inplaceOps.take 3)) (.update 0 7 [.old 0, .lit 2] false)) ∧
+    Agree (step (run {} (inplaceOps.take 3)) (.update 0 7 [.old 0, .lit 2] false))
+      (stepS (runS [] (inplaceOps.take 3)) (.update 0 7 [.old 0, .lit 2] false)) :=
+  inplace_and_copy_agree rcIsOne_sound (inplace_refines_persistent rcIsOne_sound _).1
+    (inplace_refines_persistent rcIsOne_sound _).2 0 7 [.old 0, .lit 2]
+example : (step (run {} (inplaceOps.take 3)) (.update 0 7 [.old 0, .lit 2] true)).store.length = 1 ∧
+    (step (run {} (inplaceOps.take 3)) (.update 0 7 [.old 0, .lit 2] false)).store.length = 2 := by decide
 
 /-! ### `last_use_move_safe` -/
 
@@ -256,11 +334,23 @@ theorem last_use_move_safe {U : Obj → Bool} (hU : SoundTest U) (pre rest : Lis
     | some v => exact ⟨v, rfl, (hA j).2 v t hv hg⟩
   exact ⟨view _ hm, view _ ht⟩
 
+/-- non-vacuity (applied, every hypothesis instantiated): `(define x (list 1))`, then `y := x` as a move resp. as
+a copy, then `y` is updated and `x` is never named again: `y` unfolds to `[1, 2]` in both runs (the moving run
+updates in place, the copying run allocates: the `decide`d example at the end of the file) -/
+example :
+    (∃ v, get (run {} ([.new 0 7 [.lit 1]] ++ .move 1 0 :: [.update 1 7 [.old 0, .lit 2] true])).hold 1 = some v ∧
+      Rep (run {} ([.new 0 7 [.lit 1]] ++ .move 1 0 :: [.update 1 7 [.old 0, .lit 2] true])).store v
+        (.node 7 [.atom 1, .atom 2])) ∧
+    (∃ v, get (run {} ([.new 0 7 [.lit 1]] ++ .alias 1 0 :: [.update 1 7 [.old 0, .lit 2] true])).hold 1 = some v ∧
+      Rep (run {} ([.new 0 7 [.lit 1]] ++ .alias 1 0 :: [.update 1 7 [.old 0, .lit 2] true])).store v
+        (.node 7 [.atom 1, .atom 2])) :=
+  last_use_move_safe rcIsOne_sound [.new 0 7 [.lit 1]] [.update 1 7 [.old 0, .lit 2] true] 1 0
+    (by decide) (by decide) 1 (by decide) _ rfl
+example : (run {} [.new 0 7 [.lit 1], .move 1 0, .update 1 7 [.old 0, .lit 2] true]).store.length = 1 ∧
+    (run {} [.new 0 7 [.lit 1], .alias 1 0, .update 1 7 [.old 0, .lit 2] true]).store.length = 2 := by decide
+
 /-! ### `inplace_unsound_if_count_wrong` — the theorem is not vacuous -/
 
-/-- a list `[1]` (kind 7) held by holders 0 and 1; holder 0 is updated to `[1, 2]` -/
-def witnessOps : List Op :=
-  [.new 0 7 [.lit 1], .alias 1 0, .update 0 7 [.old 0, .lit 2] true]
 
 /-- a test that ignores the count (what a forgotten `get_mut` check amounts to) -/
 def alwaysUnique : Obj → Bool := fun _ => true
@@ -285,11 +375,6 @@ example : viewM (run {} witnessOps) 3 1 = viewS (runS [] witnessOps) 1 ∧
     viewS (runS [] witnessOps) 1 = some (Tree.enc (.node 7 [.atom 1])) ∧
     viewS (runS [] witnessOps) 0 = some (Tree.enc (.node 7 [.atom 1, .atom 2])) := by decide
 
-/-- non-vacuity of the in-place path: when the alias has been dropped (or moved: last use) the update of
-the code that exists DOES run in place (no new object is allocated: the store keeps its length), and the
-view is still the one of S -/
-def inplaceOps : List Op :=
-  [.new 0 7 [.lit 1], .alias 1 0, .drop 1, .update 0 7 [.old 0, .lit 2] true]
 
 example : (run {} inplaceOps).store.length = 1 ∧
     viewM (run {} inplaceOps) 3 0 = viewS (runS [] inplaceOps) 0 ∧
@@ -298,10 +383,6 @@ example : (run {} inplaceOps).store.length = 1 ∧
 /-- ... and with the alias alive it does not (a second object is allocated) -/
 example : (run {} witnessOps).store.length = 2 := by decide
 
-/-- nested values: a container (kind 9) holding the list; the list is then updated through a holder
-obtained by `get` (a derived value: `car`, `hash-ref`, `vector-ref`): the container is unaffected -/
-def nestedOps : List Op :=
-  [.new 0 7 [.lit 1], .new 1 9 [.hold 0, .lit 5], .drop 0, .get 2 1 0, .update 2 7 [.old 0, .lit 2] true]
 
 example : viewM (run {} nestedOps) 4 1 = some (Tree.enc (.node 9 [.node 7 [.atom 1], .atom 5])) ∧
     viewM (run {} nestedOps) 4 2 = some (Tree.enc (.node 7 [.atom 1, .atom 2])) ∧
@@ -310,5 +391,45 @@ example : viewM (run {} nestedOps) 4 1 = some (Tree.enc (.node 9 [.node 7 [.atom
 /-- last use: moving instead of copying lets the update run in place, with the same views -/
 example : viewM (run {} [.new 0 7 [.lit 1], .move 1 0, .update 1 7 [.old 0, .lit 2] true]) 3 1
     = viewM (run {} [.new 0 7 [.lit 1], .alias 1 0, .update 1 7 [.old 0, .lit 2] true]) 3 1 := by decide
+
+/-! ## Clauses of the property not carried by a theorem -/
+
+/-
+What the theorems say, read together: in the model M (a store of reference-counted objects `kind, slots, rc`
+with nested references; numbered holders; operations new / lit / alias / move / drop / get / update with an
+in-place path guarded by a uniqueness test) — for EVERY operation list from the empty state, every sound test
+(`U ob → ob.rc = 1`; the code's `rc = 1` is one), every choice of `fast` flags and of moves — after every
+prefix each count equals the number of references, and every holder observes exactly the pure tree the
+persistent semantics S gives it (`inplace_refines_persistent`, `counts_exact`, `view_eq`, `bound_eq`); an update
+yields the update applied to the old pure value and leaves every other holder's value alone, on either path
+(`update_is_fresh_copy`, `inplace_and_copy_agree`); replacing a copy by a move at a use after which the holder
+is not named again changes no other holder's value (`last_use_move_safe`); with an unsound test the refinement
+fails (`inplace_unsound_if_count_wrong`).
+
+NOT carried by any theorem (covered only by the differential correspondence of checks/c03.py, or by another
+property):
+
+ * **That a Steel program IS such an operation list**: which holders exist (variables, stack slots, closure
+   captures, containers, continuation frames, thread-held references), when the VM clones, moves or drops them
+   (`MOVEREADLOCAL*`, `call_primitive_mut_func`, primitives taking `&mut SteelVal` and stealing arguments), and
+   which `Src` list each primitive (`hash-insert`, `cons`, `append`, `hash-union`, `string-push`,
+   `#%struct-update`, …) performs is the driver's table, compared with the real engine — not proved.
+ * **That the real uniqueness test is sound** (`Gc::get_mut`/`make_mut`/`try_unwrap` → `has_unique_ref` true ⇒
+   exactly one reference): the hypothesis `SoundTest`; it is C05's theorem (and fails there in the merged case,
+   D1).  That every in-place primitive does perform that test is `GenInPlace.tests_are_strong_count_one`, a
+   `decide` on a table extracted by regular expressions.
+ * **That the compiler's last-use analysis marks only last uses** (`analysis.rs` `last_usage`): here it is the
+   HYPOTHESIS `hrest` of `last_use_move_safe` (the rest never names the holder); a wrong mark is outside.
+ * **Threads**: "which thread holds them" is represented only by the `fast` flag (the test answers `false` for a
+   non-owner); interleavings of count operations of several threads are C05's, there is no concurrency here.
+ * **Structural sharing INSIDE a collection** (im-lists nodes, `imbl` HAMT/RRB nodes, each with its own
+   `make_mut`): one object per collection in the model.
+ * **The value kinds by name** (lists, pairs, immutable vectors, hash maps, hash sets, strings, immutable
+   struct instances): a `kind` number and a slot list; `equal?`/printed form of the real values is C11's/C12's.
+ * **The native tier** (STEEL_JIT on): same model, tied in by running the generated programs under both
+   settings only.
+ * **Open continuation marks / `call/cc` frames holding values** as holders: not distinguished from other
+   holders; that capturing a continuation clones what it must is not modelled.
+-/
 
 end SteelVerif.C03
